@@ -237,6 +237,10 @@ func (m *MdnsManager) AnnounceMdnsEntry() error {
 
 	serviceIdentifier := m.identifier
 
+	m.mux.Lock()
+	autoaccept := m.autoaccept
+	m.mux.Unlock()
+
 	txt := []string{ // SHIP 7.3.2
 		"txtvers=1",
 		"path=" + shipWebsocketPath,
@@ -245,7 +249,7 @@ func (m *MdnsManager) AnnounceMdnsEntry() error {
 		"brand=" + m.deviceBrand,
 		"model=" + m.deviceModel,
 		"type=" + m.deviceType,
-		"register=" + fmt.Sprintf("%v", m.autoaccept),
+		"register=" + fmt.Sprintf("%v", autoaccept),
 	}
 
 	// SHIP Requirements for Installation Process V1.0.0
@@ -302,7 +306,9 @@ func (m *MdnsManager) setIsServiceAnnounce(value bool) {
 }
 
 func (m *MdnsManager) SetAutoAccept(accept bool) {
+	m.mux.Lock()
 	m.autoaccept = accept
+	m.mux.Unlock()
 
 	// if announcement is off, don't enforce a new announcement
 	if !m.isServiceAnnounced() {
